@@ -333,7 +333,7 @@ impl Write for SimWrite {
             t.push('w', pos, 0, 0);
             return Ok(0);
         }
-        if call > 1_000_000 {
+        if call > 400_000_000 {
             t.aborted = true;
             return Err(io::Error::new(io::ErrorKind::Other, "simulator step cap"));
         }
